@@ -72,6 +72,15 @@ def _section(c, sec):
     if strat in ("subline", "subpb"):
         data["SB"] = [key("sub", 1 if r < half else 2) for r in range(n)]
         pbk["subline_by"] = names(["SB"])
+    if strat in ("gbpb", "gbsub"):
+        # group_by with contiguous keys next to a page_by / subline_by column whose key comes back (A, B, A): legal -
+        # only group_by keys have to be contiguous
+        third = max(1, (n + 2) // 3)
+        col = "PB" if strat == "gbpb" else "SB"
+        data[col] = [key("grp", 1 if (r // third) % 2 == 0 else 2) for r in range(n)]
+        data["GB"] = [key("g", 1 + r // third) if kt not in ("date",) else _dt.date(2024, 2, 1 + r // third) for r in range(n)]
+        pbk["page_by" if strat == "gbpb" else "subline_by"] = names([col])
+        pbk["group_by"] = names(["GB"])
     if strat == "groupby":
         if c["contig"]:
             data["GB"] = [key("g", 1 if r < half else 2) for r in range(n)]
@@ -131,7 +140,7 @@ def _section(c, sec):
     if c["hdr"] == "off":
         bk["as_colheader"] = False
     body = rtf.RTFBody(**bk)
-    displayed = [k for k in data if not (k == "SB" or (k == "PB" and strat in ("pageby", "pageby_np_first", "subpb")))]
+    displayed = [k for k in data if not (k == "SB" or (k == "PB" and strat in ("pageby", "pageby_np_first", "subpb", "gbpb")))]
     hk = {"text_font_size": 10.5} if c["size"] == "half" else {}
     if full:
         hk["cell_vertical_justification"] = [[VJ[(j + 3) % len(VJ)] for j in range(max(1, len(displayed)))]]
